@@ -61,7 +61,7 @@ def _load(p):
 
 
 def _run_stream(ctx, fc, ufoio, tag, seed, count, gen, style_classes, known_ids, stats, corr, witness_font=None,
-                fixed_style=None, rng_seed=None):
+                fixed_style=None, rng_seed=None, fonts_file=None):
     """one stream of generated fonts through both directions.  gen: generator classes switched on;
     style_classes: writer classes switched on.  Failures are classified; outside the expected
     classes they are violations."""
@@ -73,6 +73,8 @@ def _run_stream(ctx, fc, ufoio, tag, seed, count, gen, style_classes, known_ids,
     if witness_font:
         cmd += ["--font", witness_font]
         count = 1
+    if fonts_file:
+        cmd += ["--fonts", fonts_file]
     rc, o = sh(cmd, timeout=3000)
     if rc != 0:
         ctx.disagreements.append({"what": "harness c05 failed", "stream": tag, "output": o[-1500:]})
@@ -142,6 +144,25 @@ def _run_stream(ctx, fc, ufoio, tag, seed, count, gen, style_classes, known_ids,
             ctx.violations.append({"direction": "norad-writes", "stream": tag, "seed": seed, "case": case, "font": font,
                                    "not_wellformed": bad[:3], "demand": "every written file is well-formed XML"})
             continue
+        # no two glyphs of a layer share a glif file, no two layers a directory (compared ignoring case)
+        try:
+            shared = []
+            lcs = ufoio.read_plist_file(os.path.join(nufo, "layercontents.plist"), "layercontents.plist")["v"]
+            dirs = [e["v"][1]["v"] for e in lcs]
+            if len({d.lower() for d in dirs}) != len(dirs):
+                shared.append(["layercontents.plist", dirs])
+            for d in dirs:
+                cp = ufoio.read_plist_file(os.path.join(nufo, d, "contents.plist"), "contents.plist")["v"]
+                files = [v["v"] for v in cp.values()]
+                if len({f.lower() for f in files}) != len(files):
+                    shared.append([d + "/contents.plist", sorted(files)[:12]])
+            if shared:
+                ctx.violations.append({"direction": "norad-writes", "stream": tag, "seed": seed, "case": case, "font": font,
+                                       "shared_files": shared,
+                                       "demand": "every glyph of a layer has its own glif file, every layer its own directory"})
+                continue
+        except (ufoio.UfoError, OSError, KeyError, IndexError, TypeError):
+            pass        # reported by the independent reader below
         try:
             r = ufoio.read_ufo(nufo)
         except (ufoio.UfoError, OSError) as e:
@@ -259,8 +280,20 @@ def run(ctx, known, built):
                 stale.append(fn)
     ctx.note("witnesses done")
     # main stream: valid fonts outside every known class (f13_meta / cr_in_plist are repaired or harmless)
-    _run_stream(ctx, fc, ufoio, "main", ctx.seed, n_main, MAIN_GEN, [], known_ids, stats, corr)
+    main = _run_stream(ctx, fc, ufoio, "main", ctx.seed, n_main, MAIN_GEN, [], known_ids, stats, corr)
     ctx.note("main stream done")
+    # main-stream fonts with groups of 2..5 layer / glyph names that collapse to one directory / file stem
+    # (illegal characters, case + underscore, trailing period or space; stems with and without upper-case
+    # letters): both directions again -- the independent reader must find every glyph with its own data
+    from props import c01 as c01mod
+    hr = random.Random(ctx.seed * 131 + 3)
+    base = [main[0][k] for k in sorted(main[0], key=lambda c: int(c.split("_")[1]))][:(1200 if thorough else 60)] if main else []
+    cf = c01mod.history_fonts(base, hr, long_names=False)   # (long names: C01 / C07)
+    if cf:
+        ffile = os.path.join(ctx.scratch, "collisions.json")
+        json.dump(cf, open(ffile, "w"))
+        _run_stream(ctx, fc, ufoio, "collisions", ctx.seed, len(cf), [], [], known_ids, stats, corr, fonts_file=ffile)
+    ctx.note("name collisions done")
     # the known classes, one stream each
     for cid, sw in sorted(KNOWN_WRITER.items()):
         _run_stream(ctx, fc, ufoio, "g_" + sw, ctx.seed + 17, n_class, [sw] + MAIN_GEN, [], known_ids, stats, None)
